@@ -6,6 +6,7 @@ import Asn1Model.Uper
 import Asn1Model.Typing
 import Asn1Model.Oer
 import Asn1Model.OerTyping
+import Asn1Model.BerFraming
 /-
   Line protocol: one request per line `op<TAB>arg...`, args are S-expressions.
   One answer line per request.  Everything printed is canonical.
@@ -210,6 +211,19 @@ def opDec (args : List Sx) : String :=
     | _, none => "bad-hex"
   | _ => "bad-args"
 
+
+/-- `probe <hex>` : `decode_full_length` -/
+def opProbe (args : List Sx) : String :=
+  match args with
+  | [.atom h] =>
+    match fromHex (if h == "-" then "" else h) with
+    | some bs =>
+      match Ber.fullLength bs with
+      | .unknown => "unknown"
+      | .indefinite => "indefinite"
+      | .known n => s!"known {n}"
+    | none => "bad-hex"
+  | _ => "bad-args"
 
 def b2s (b : Bool) : String := if b then "T" else "F"
 
